@@ -12,6 +12,7 @@ import (
 	"context"
 	"encoding/json"
 	"fmt"
+	stakingtypes "github.com/cosmos/cosmos-sdk/x/staking/types"
 	"math"
 	"math/big"
 	"math/rand"
@@ -48,6 +49,10 @@ type Params struct {
 	UseLevelDB bool    `json:"leveldb,omitempty"`
 	NoProbe    bool    `json:"no_probe,omitempty"`
 	Kind       string  `json:"kind,omitempty"` // "" = random omnibus history; "purge" = scripted long-idle history (purge.go)
+	// HonestValsetAt > 0: at that block the pending validator-set update of the first chain is delivered by honest
+	// pigeons (so a snapshot is live on the chain), ten blocks later a user moves stake (so the next snapshot
+	// differs): from then on batch builds trigger just-in-time valset updates through the event bus
+	HonestValsetAt int `json:"honest_valset_at,omitempty"`
 }
 
 // Hooks let another monitor observe the omnibus history block by block.
@@ -190,6 +195,14 @@ func Drive(c fw.Case, p Params, rec *fw.Recorder, hooks Hooks) {
 		if b == m.onboardAt {
 			m.onboardChains()
 		}
+		if p.HonestValsetAt > 0 && b == p.HonestValsetAt {
+			m.honestValset()
+		}
+		if p.HonestValsetAt > 0 && b == p.HonestValsetAt+10 {
+			u, v := w.Users[0], w.Vals[len(w.Vals)-1]
+			_ = m.c.QueueTx(u, 0, &stakingtypes.MsgDelegate{DelegatorAddress: u.Bech, ValidatorAddress: v.ValBech(), Amount: sdk.NewInt64Coin(chain.Denom, 4_000_000)})
+			m.note("user0 delegates 4 GRAIN to " + v.Name)
+		}
 		if b%300 == 5 {
 			w.KeepAlive()
 			m.block(true)
@@ -198,6 +211,9 @@ func Drive(c fw.Case, p Params, rec *fw.Recorder, hooks Hooks) {
 		}
 		if b%64 == 17 && !m.stopped && !p.NoProbe {
 			m.probe()
+			if b == 17 {
+				m.versionGate()
+			}
 		}
 	}
 	for k, n := range m.c.Log.Distinct() {
@@ -206,6 +222,25 @@ func Drive(c fw.Case, p Params, rec *fw.Recorder, hooks Hooks) {
 			rec.Distinct("logline|" + k)
 		}
 	}
+}
+
+// honestValset: honest pigeons deliver the oldest pending validator-set update of the first chain.
+func (m *mon) honestValset() {
+	ch := m.w.Chains[0]
+	chainID := map[string]uint64{"eth-main": 1, "bnb-main": 56}[ch]
+	for _, qm := range world.QueueMsgs(m.c, world.TurnstoneQueue(ch)) {
+		if tm := world.TurnstoneMsg(m.c, qm); tm != nil && tm.GetUpdateValset() != nil {
+			m.note(fmt.Sprintf("honest delivery of valset update %d on %s", qm.GetId(), ch))
+			if _, err := world.DeliverMessage(m.c, m.w.Vals, ch, chainID, qm.GetId(), 1); err == nil {
+				m.rec.Count("valset_updates_delivered_honestly", 1)
+			} else {
+				m.rec.Count("valset_update_delivery_failed", 1)
+				m.note("delivery failed: " + err.Error())
+			}
+			return
+		}
+	}
+	m.rec.Count("valset_update_none_pending", 1)
 }
 
 func (m *mon) weight(kind string) int {
@@ -723,6 +758,9 @@ func cases(tier string, seed int64) []fw.Case {
 	stakes := [][]int64{{40e6, 30e6, 20e6, 10e6}, {25e6, 25e6, 25e6, 25e6}, {50e6, 30e6, 20e6}, {30e6, 20e6, 20e6, 15e6, 15e6}}
 	for i := 0; i < n; i++ {
 		p := params{Stakes: stakes[i%len(stakes)], NChains: 1 + i%2, Blocks: blocks, Focus: foci[i%len(foci)], Hostile: []int{30, 60, 90}[i%3]}
+		if i%2 == 1 {
+			p.HonestValsetAt = 70
+		}
 		cs = append(cs, fw.MkCase(fmt.Sprintf("omni-%03d", i), seed*15485863+int64(i), p))
 	}
 	np := 4
@@ -748,12 +786,12 @@ func init() {
 			"evaluations = blocks executed + module probes; distinct_nontrivial = distinct accepted (actor-kind, operation, hostile value) descriptions + distinct WARN/ERROR log lines reached (branch-coverage proxy)",
 		Assumptions: []string{
 			"only states reached through accepted transactions and the keeper functions governance handlers call; panics inside transaction execution are recovered by baseapp and are not violations",
-			"the deliberate version-gate halt is not exercised (no upgrade plan is scheduled)",
+			"the version gate is exercised on forks only (completed upgrade plan x application version, same major.minor line): it may stop older software, nothing else; pairs on different major.minor lines are stopped by design in both directions and are not judged",
 			"stakes are bounded by realistic supply (no > 2^63 ugrain bonded)",
 		},
 		Cases:       cases,
 		Run:         run,
-		MinCounters: []string{"blocks", "probes", "accepted:evidence", "accepted:estimate", "accepted:relayer-fee", "accepted:public-access", "height_class_%300", "height_class_%303", "purge:validators_purged", "retry:message_retried_in_endblock"},
+		MinCounters: []string{"blocks", "probes", "accepted:evidence", "accepted:estimate", "accepted:relayer-fee", "accepted:public-access", "height_class_%300", "height_class_%303", "purge:validators_purged", "retry:message_retried_in_endblock", "version_gate_passed_same_or_newer", "version_gate_stopped_older_software"},
 		TimeoutS:    1500,
 	})
 }
